@@ -91,9 +91,11 @@ func runC19(o *cli.Opts, run *evid.Run) {
 		tag  string
 	}
 	// (1,2): a batch that fills the whole tree
-	specs := []spec{{"insertion", 3, 2, "A"}, {"deletion", 3, 2, "A"}, {"insertion", 1, 2, "A"}}
+	// (20,3): the one-line parameter document is larger than 4 KiB (a buffered reader's default size)
+	specs := []spec{{"insertion", 3, 2, "A"}, {"deletion", 3, 2, "A"}, {"insertion", 1, 2, "A"}, {"insertion", 20, 3, "A"}}
 	if o.Thorough() {
-		specs = append(specs, spec{"insertion", 3, 2, "B"}, spec{"insertion", 1, 1, "A"}, spec{"deletion", 1, 1, "A"}, spec{"insertion", 10, 3, "A"}, spec{"deletion", 20, 1, "A"}, spec{"insertion", 32, 1, "A"}, spec{"deletion", 31, 1, "A"})
+		// (30,32): parameter document larger than 64 KiB (a line scanner's default token limit)
+		specs = append(specs, spec{"deletion", 30, 32, "A"}, spec{"insertion", 3, 2, "B"}, spec{"insertion", 1, 1, "A"}, spec{"deletion", 1, 1, "A"}, spec{"insertion", 10, 3, "A"}, spec{"deletion", 20, 1, "A"}, spec{"insertion", 32, 1, "A"}, spec{"deletion", 31, 1, "A"})
 	}
 	systems := make([]*c19Sys, len(specs))
 	cli.ForEach(len(specs), 3, func(i int) {
